@@ -139,6 +139,80 @@ def l2c_generators_consumed_once(tree, rep):
     rep.floor('definitions checked for twice-consumed generators', n, 2200)
 
 
+def l3_lines_are_read_not_recomputed(tree, rep):
+    """A definition that needs another line reads it (`v['11']`): it then gets the stored value - rounded to that line's
+    places, the value the solution shows - and the solver knows about the dependency.  Calling the other line's
+    definition function directly recomputes it unrounded and leaves the line undemanded: the product no longer equals
+    "line 8 times line 11" of the same solution."""
+    import ast as _ast
+    from .formx import field_closure
+    an = get_analysis(tree)
+    owner = {}
+    for d in an.defs.values():
+        clo = field_closure(d.rec)
+        node = getattr(clo, 'node', None)
+        if isinstance(node, _ast.FunctionDef):
+            owner.setdefault((d.year, getattr(clo, 'rel', None), node.lineno), []).append(d)
+    n = 0
+    for d in an.defs.values():
+        n += 1
+        bad = []
+        for p in d.paths:
+            for (kind, data, node, rel) in p.events:
+                if kind != 'callnode':
+                    continue
+                crel, lineno, name = data
+                for o in owner.get((d.year, crel, lineno), []):
+                    if o.key != d.key and o.fr.name == d.fr.name:
+                        bad.append((name, o.key, f'{rel}:{getattr(node, "lineno", 0)}'))
+        if bad:
+            rep.ob('L3', d.key, False,
+                   f'{d.key} calls {bad[0][0]}(), the definition of line {bad[0][1]}, instead of reading that line: it works with the unrounded amount (not the one the solution shows '
+                   'on that line) and the line is no longer demanded', bad[0][2])
+    rep.ob('L3', 'no-definition-recomputes-another-line', True)
+    rep.floor('definitions checked for recomputing another line', n, 2200)
+
+
+def l4_no_demand_inside_assert(tree, rep):
+    """`assert` statements are not compiled under `python -O` / PYTHONOPTIMIZE.  A line or input that a definition reads
+    only inside an assert is demanded in one interpreter mode and not in the other: the forms and lines it pulls in (and
+    the gate it may be) silently drop out of the solution.  Reads that also occur outside an assert on the same path are
+    fine (the assert then only re-checks a value the definition uses anyway)."""
+    import ast as _ast
+    an = get_analysis(tree)
+    n = 0
+
+    def in_assert(node):
+        p = node
+        while p is not None:
+            if isinstance(p, _ast.Assert):
+                return True
+            p = getattr(p, 'parent', None)
+        return False
+    for d in an.defs.values():
+        n += 1
+        bad = None
+        for p in d.paths:
+            inside, outside = {}, set()
+            for r in p.reads:
+                if r.atom is None:
+                    continue
+                if in_assert(r.node):
+                    inside.setdefault(r.atom, r)
+                else:
+                    outside.add(r.atom)
+            only = [r for a, r in inside.items() if a not in outside]
+            if only:
+                bad = only[0]
+                break
+        if bad is not None:
+            rep.ob('L4', d.key, False,
+                   f'{d.key} reads {bad.atom} only inside an assert statement: with assertions switched off (python -O) the line is not read, so what it demands is missing from the '
+                   'solution although the solve succeeds', f'{bad.rel}:{getattr(bad.node, "lineno", 0)}')
+    rep.ob('L4', 'no-read-lives-only-in-an-assert', True)
+    rep.floor('definitions checked for reads inside assert', n, 2200)
+
+
 def enclosing_scope(node):
     p = getattr(node, 'parent', None)
     while p is not None and not isinstance(p, (ast.FunctionDef, ast.Lambda, ast.ClassDef)):
